@@ -37,7 +37,8 @@ vars == <<nodes, typ, ar, pth, dashed, dashkid, sec>>
 \* an arch outside ar[p] is a "foreign" assignment
 Init ==
   CASE Slice = "forest" ->
-         /\ nodes \in ShapesUpTo(MaxNodes) /\ typ \in [nodes -> IF Cardinality(nodes) <= 4 THEN Types ELSE {"variant", "layered-product"}]
+         /\ nodes \in ShapesUpTo(MaxNodes) \cup {{}}       \* incl. the compose without any variant (the lower boundary)
+         /\ typ \in [nodes -> IF Cardinality(nodes) <= 4 THEN Types ELSE {"variant", "layered-product"}]
          /\ ar = [p \in nodes |-> {"x"}] /\ pth = [p \in nodes |-> {}] /\ dashed \in BOOLEAN /\ sec = DefaultSec
          /\ dashkid \in BOOLEAN /\ (dashkid => dashed /\ Cardinality(nodes) <= 2)      \* the dashed top-level variant has a child "o"
     [] Slice = "arches" ->
